@@ -9,38 +9,39 @@ import (
 // TRUSTED TABLE: the write behaviour of callees outside the library (standard library, x/crypto,
 // protobuf runtime).  Key = types.Func.FullName().  Indices: for a method 0 = receiver and the
 // arguments start at 1; for a function the arguments start at 0.
-//   w<i>      the callee writes into argument i (within its capacity)
-//   a<i>      the callee appends to argument i and returns the result (result 0)
-//   k<i>      the callee keeps argument i in an object that outlives the call
-//   r=fresh   result 0 is freshly allocated        r=opaque  result 0 is a view of memory nobody here owns
-//   r=<i>     result 0 is a view of argument i     r=any     result 0 may be a view of any byte argument
-//   (empty)   reads its arguments only; byte results per the package default
+//
+//	w<i>      the callee writes into argument i (within its capacity)
+//	a<i>      the callee appends to argument i and returns the result (result 0)
+//	k<i>      the callee keeps argument i in an object that outlives the call
+//	r=fresh   result 0 is freshly allocated        r=opaque  result 0 is a view of memory nobody here owns
+//	r=<i>     result 0 is a view of argument i     r=any     result 0 may be a view of any byte argument
+//	(empty)   reads its arguments only; byte results per the package default
 var extTable = map[string]string{
 	// io
-	"(io.Reader).Read":   "w1",
-	"io.ReadFull":        "w1",
-	"io.ReadAtLeast":     "w1",
-	"(io.Writer).Write":  "",
+	"(io.Reader).Read":     "w1",
+	"io.ReadFull":          "w1",
+	"io.ReadAtLeast":       "w1",
+	"(io.Writer).Write":    "",
 	"(io.ReaderAt).ReadAt": "w1",
-	"io.Copy":            "",
-	"io.ReadAll":         "r=fresh",
+	"io.Copy":              "",
+	"io.ReadAll":           "r=fresh",
 	// crypto/rand
 	"crypto/rand.Read": "w0",
 	// hash
 	"(hash.Hash).Sum": "a1",
 	// cipher
-	"(crypto/cipher.AEAD).Seal":            "a1",
-	"(crypto/cipher.AEAD).Open":            "a1",
-	"(crypto/cipher.Stream).XORKeyStream":  "w1",
-	"(crypto/cipher.Block).Encrypt":        "w1",
-	"(crypto/cipher.Block).Decrypt":        "w1",
+	"(crypto/cipher.AEAD).Seal":             "a1",
+	"(crypto/cipher.AEAD).Open":             "a1",
+	"(crypto/cipher.Stream).XORKeyStream":   "w1",
+	"(crypto/cipher.Block).Encrypt":         "w1",
+	"(crypto/cipher.Block).Decrypt":         "w1",
 	"(crypto/cipher.BlockMode).CryptBlocks": "w1",
-	"crypto/cipher.NewCTR":                 "",
-	"crypto/cipher.NewGCM":                 "",
-	"crypto/cipher.NewGCMWithNonceSize":    "",
-	"crypto/cipher.NewGCMWithTagSize":      "",
-	"crypto/cipher.NewCBCEncrypter":        "",
-	"crypto/cipher.NewCBCDecrypter":        "",
+	"crypto/cipher.NewCTR":                  "",
+	"crypto/cipher.NewGCM":                  "",
+	"crypto/cipher.NewGCMWithNonceSize":     "",
+	"crypto/cipher.NewGCMWithTagSize":       "",
+	"crypto/cipher.NewCBCEncrypter":         "",
+	"crypto/cipher.NewCBCDecrypter":         "",
 	// encoding/binary
 	"(encoding/binary.ByteOrder).PutUint16":          "w1",
 	"(encoding/binary.ByteOrder).PutUint32":          "w1",
@@ -79,44 +80,51 @@ var extTable = map[string]string{
 	"crypto/subtle.ConstantTimeCopy":    "w1",
 	"crypto/subtle.ConstantTimeCompare": "",
 	// bytes / slices
-	"bytes.Clone":      "r=fresh",
-	"slices.Clone":     "r=fresh",
-	"slices.Concat":    "r=fresh",
-	"bytes.Join":       "r=fresh",
-	"bytes.Repeat":     "r=fresh",
-	"bytes.Equal":      "",
-	"bytes.Compare":    "",
-	"bytes.HasPrefix":  "",
-	"bytes.HasSuffix":  "",
-	"bytes.Contains":   "",
-	"bytes.NewReader":  "",
-	"bytes.NewBuffer":  "w0;k0",
-	"(*bytes.Buffer).Write":     "",
-	"(*bytes.Buffer).Bytes":     "r=0",
-	"(*bytes.Buffer).Read":      "w1",
-	"(*bytes.Buffer).Next":      "r=0",
-	"(*bytes.Reader).Read":      "w1",
-	"slices.Equal":     "",
-	"slices.Reverse":   "w0",
+	"bytes.Clone":           "r=fresh",
+	"slices.Clone":          "r=fresh",
+	"slices.Concat":         "r=fresh",
+	"bytes.Join":            "r=fresh",
+	"bytes.Repeat":          "r=fresh",
+	"bytes.Equal":           "",
+	"bytes.Compare":         "",
+	"bytes.HasPrefix":       "",
+	"bytes.HasSuffix":       "",
+	"bytes.Contains":        "",
+	"bytes.NewReader":       "",
+	"bytes.NewBuffer":       "w0;k0",
+	"(*bytes.Buffer).Write": "",
+	"(*bytes.Buffer).Bytes": "r=0",
+	"(*bytes.Buffer).Read":  "w1",
+	"(*bytes.Buffer).Next":  "r=0",
+	"(*bytes.Reader).Read":  "w1",
+	"slices.Equal":          "",
+	"slices.Reverse":        "w0",
 	// math/big
 	"(*math/big.Int).SetBytes":  "",
 	"(*math/big.Int).Bytes":     "r=fresh",
 	"(*math/big.Int).FillBytes": "w1;r=1",
 	// encodings
-	"encoding/hex.Encode":                          "w0",
-	"encoding/hex.Decode":                          "w0",
-	"(*encoding/base64.Encoding).Encode":           "w1",
-	"(*encoding/base64.Encoding).Decode":           "w1",
-	"(*encoding/base64.Encoding).EncodeToString":   "",
-	"(*encoding/base64.Encoding).DecodeString":     "r=fresh",
+	"encoding/hex.Encode":                        "w0",
+	"encoding/hex.Decode":                        "w0",
+	"(*encoding/base64.Encoding).Encode":         "w1",
+	"(*encoding/base64.Encoding).Decode":         "w1",
+	"(*encoding/base64.Encoding).EncodeToString": "",
+	"(*encoding/base64.Encoding).DecodeString":   "r=fresh",
 	// x/crypto
 	"golang.org/x/crypto/curve25519.ScalarMult":     "w0",
 	"golang.org/x/crypto/curve25519.ScalarBaseMult": "w0",
 	// protobuf
-	"google.golang.org/protobuf/proto.Marshal":                    "r=fresh",
-	"google.golang.org/protobuf/proto.Unmarshal":                  "",
-	"(google.golang.org/protobuf/proto.MarshalOptions).Marshal":   "r=fresh",
-	"(google.golang.org/protobuf/proto.UnmarshalOptions).Unmarshal": "",
+	"google.golang.org/protobuf/proto.Marshal":                                   "r=fresh",
+	"google.golang.org/protobuf/proto.Unmarshal":                                 "",
+	"(google.golang.org/protobuf/proto.MarshalOptions).Marshal":                  "r=fresh",
+	"(google.golang.org/protobuf/proto.UnmarshalOptions).Unmarshal":              "",
+	"(*crypto/sha3.SHAKE).Write":                                                 "",
+	"(*crypto/sha3.SHAKE).Read":                                                  "w1",
+	"(*crypto/sha3.SHA3).Write":                                                  "",
+	"(*crypto/sha3.SHA3).Sum":                                                    "a1",
+	"encoding/asn1.Unmarshal":                                                    "",
+	"(google.golang.org/protobuf/encoding/protojson.UnmarshalOptions).Unmarshal": "",
+	"google.golang.org/protobuf/encoding/protojson.Unmarshal":                    "",
 	// hashes with array results
 	"crypto/sha256.Sum256": "",
 	"crypto/sha256.Sum224": "",
